@@ -270,10 +270,11 @@ def has_seg_ids_at_coords(
             return False, errors
         try:
             scaled_coord = [c * s for c, s in zip(coord, scale, strict=True)]
-            if any(c < 0 for c in scaled_coord):
+            if any(not c >= 0 for c in scaled_coord):
                 # numpy would wrap a negative index around to the end of the axis, and
-                # int() would truncate values in (-1, 0) to pixel 0
-                raise IndexError("negative coordinate")
+                # int() would truncate values in (-1, 0) to pixel 0; `not c >= 0` (rather
+                # than `c < 0`) also reports NaN, for which int() raises ValueError
+                raise IndexError("negative or NaN coordinate")
             value = segmentation[tuple(int(c) for c in scaled_coord)]
         except (IndexError, OverflowError):
             errors.append(
